@@ -461,7 +461,7 @@ impl SerdeAPI for SetSpeedTrainSim {
 
 impl Default for SetSpeedTrainSim {
     fn default() -> Self {
-        Self {
+        let mut train_sim = Self {
             loco_con: Consist::default(),
             state: TrainState::valid(),
             train_res: TrainRes::valid(),
@@ -469,7 +469,10 @@ impl Default for SetSpeedTrainSim {
             speed_trace: SpeedTrace::default(),
             history: TrainStateHistoryVec::default(),
             save_interval: None,
-        }
+        };
+        // `Consist::default()` saves every step; make the nested objects agree with `self.save_interval`
+        train_sim.set_save_interval(None);
+        train_sim
     }
 }
 
